@@ -27,8 +27,11 @@
   pass over several periods of the specification; `n` turns = the first `m` periods, `n ≤ m ≤ 24·n` resp.
   `48·n`, `1440·n`, `86400·n`).  All of these are assembled in `iter_eq_spec_supported_partial` over the
   decidable predicate `SupportedBy` (Spec/RRuleSupported.lean; driver op `rrule.supported`).
-  Missing: MINUTELY with BYHOUR and BYMINUTE together, SECONDLY with BYHOUR / BYMINUTE / BYSECOND (the reachability
-  loops `minutelyLoop` / `secondlyLoop` beyond their first pass are only proved monotone), BYWEEKNO / BYEASTER
+  And `iter_eq_spec_secondly_byhour_byminute_partial` / `iter_eq_spec_secondly_bysecond_partial`: SECONDLY with any
+  combination of BYHOUR / BYMINUTE / BYSECOND under the decidable reachability hypotheses `reachableS` / `reachableSS`
+  (the multi-pass loop `secondlyLoop`, with `__mod_distance` as its inner step when BYSECOND is given, stops at the
+  least grid second whose hour, minute and second are listed).
+  Missing: MINUTELY with BYHOUR and BYMINUTE together, BYWEEKNO / BYEASTER
   under WEEKLY (BYWEEKNO under MONTHLY and DAILY..SECONDLY is covered) and BYEASTER outside YEARLY, nth BYDAY with plain BYDAY (all of it inside D-C01a), BYWEEKNO with BYEASTER or
   nth BYDAY.  Everything else below — including
   `iter_strictMono` for all seven frequencies — is proved for ALL rules / all argument sets, with no
@@ -53,6 +56,7 @@ import DateutilVerif.Proofs.RRuleAmbient
 import DateutilVerif.Proofs.RRuleDailyW
 import DateutilVerif.Proofs.RRuleMonthlyW
 import DateutilVerif.Proofs.RRuleMinutelyBH
+import DateutilVerif.Proofs.RRuleSecondlyBS
 
 namespace C01
 open RRule Cal RRule.Tables
@@ -563,12 +567,39 @@ theorem iter_eq_spec_minutely_byhour_partial (a : Args) (r : Rule) (ma : Minutel
     ∃ m, n ≤ m ∧ m ≤ 2880 * n ∧ (iter r n).1 = Spec.RRule.occ a m :=
   iter_eq_spec_minutely_byhour ma h n hle
 
+/-- **`iter_eq_spec`, proved portion, SECONDLY with BYHOUR and / or BYMINUTE** (each absent or non-empty, no BYSECOND;
+    BYWEEKNO as in the other sub-daily theorems) under the explicit, decidable reachability hypothesis `reachableS a`: some
+    second of the grid — the orbit of the start under `+INTERVAL`, which repeats after at most 86400 steps — lies in a
+    listed hour and a listed minute.  `secondlyLoop` then stops at the LEAST such grid second within its own bound
+    86400 / gcd(INTERVAL, 86400) (`secondlyLoop_bhm`, `orbit_period_window`), and `n` turns correspond to `m` periods,
+    `n ≤ m ≤ 172800·n`.  On the complement the recurrence set is empty and the generator raises ValueError at the first
+    `next()` (allowed by the property: "raises ValueError when first iterated"). -/
+theorem iter_eq_spec_secondly_byhour_byminute_partial (a : Args) (r : Rule) (sa : SecondlyBHMArgs a)
+    (h : construct a = .ok r) (n : Nat)
+    (hle : ((Spec.RRule.startOrd a * 24 + a.dtstart.hh) * 60 + a.dtstart.mm) * 60 + a.dtstart.ss +
+      (172800 * n + 86400) * a.interval + 86399 < (maxOrdinal + 1) * 86400) :
+    ∃ m, n ≤ m ∧ m ≤ 172800 * n ∧ (iter r n).1 = Spec.RRule.occ a m :=
+  iter_eq_spec_secondly_bhm sa h n hle
+
+/-- **`iter_eq_spec`, proved portion, SECONDLY with BYSECOND** (any members — those outside 0..59 or off the grid are inert on
+    both sides —, BYHOUR / BYMINUTE absent or non-empty) under `reachableSS a`: some second of the grid has a listed hour,
+    minute and second.  The inner step of `secondlyLoop` is then `__mod_distance` (exact by `mod_distance_least`; it cannot
+    fall off its loop because the second-of-minute repeats with period dividing 60 and a listed one exists), a pass moves over
+    grid seconds whose second is unlisted, and the loop stops at the LEAST grid second with all three parts listed. -/
+theorem iter_eq_spec_secondly_bysecond_partial (a : Args) (r : Rule) (sa : SecondlyBSArgs a)
+    (h : construct a = .ok r) (n : Nat)
+    (hle : ((Spec.RRule.startOrd a * 24 + a.dtstart.hh) * 60 + a.dtstart.mm) * 60 + a.dtstart.ss +
+      (172800 * n + 86400) * a.interval + 86399 < (maxOrdinal + 1) * 86400) :
+    ∃ m, n ≤ m ∧ m ≤ 172800 * n ∧ (iter r n).1 = Spec.RRule.occ a m :=
+  iter_eq_spec_secondly_bysecond sa h n hle
+
 /-- **`iter_eq_spec` for every supported argument set** — the summary of the family theorems above.
     `SupportedBy a f` (Spec/RRuleSupported.lean) is a decidable condition on the arguments alone, the union of
     the proved families: DAILY, WEEKLY (BYSETPOS only with the start on the week start = outside D-C01e),
     YEARLY / MONTHLY with plain BYDAY, MONTHLY / YEARLY / YEARLY+BYMONTH with nth BYDAY only (= outside D-C01a),
     YEARLY with BYEASTER −80..250 (outside D-C01d), YEARLY with BYWEEKNO outside D-C01c, HOURLY with or
-    without BYHOUR, MINUTELY without BYHOUR (with or without BYMINUTE), SECONDLY without BYHOUR / BYMINUTE / BYSECOND; always
+    without BYHOUR, MINUTELY without BYHOUR (with or without BYMINUTE) or with BYHOUR alone, SECONDLY with any combination of
+    BYHOUR / BYMINUTE / BYSECOND (reachability of a listed grid second as a decidable hypothesis); always
     INTERVAL ≥ 1, a valid start, no zero in BYMONTHDAY.  `inRange` keeps the first `n` turns inside
     datetime's range.  `m = n` for the calendar frequencies.  The driver op `rrule.supported` evaluates
     `family`, so each run of the check records which share of its sampled rules is covered by this theorem
@@ -692,6 +723,17 @@ example : ((match construct { freq := 4, dtstart := dt 2024 1 1 9, interval := 7
 example : MinutelyByArgs { freq := 5, dtstart := dt 2024 1 1 9, interval := 25, byminute := some [0, 30] } :=
   ⟨rfl, by decide, by decide, Or.inl rfl, rfl, by intro x hx; simp at hx, rfl, ⟨[0, 30], rfl, by decide⟩,
    by intro x hx; simp at hx⟩
+-- a SecondlyBHMArgs instance: every 45 s, only in minutes :00 and :30 (the start itself is listed: witness j = 0)
+example : SecondlyBHMArgs { freq := 6, dtstart := dt 2024 1 1 9, interval := 45, byminute := some [0, 30] } :=
+  ⟨rfl, by decide, by decide, Or.inl rfl, rfl, by intro x hx; simp at hx, Or.inl rfl, Or.inr ⟨[0, 30], rfl, by decide⟩, rfl,
+   List.any_eq_true.mpr ⟨0, List.mem_range.mpr (by omega), by decide⟩⟩
+example : ((match construct { freq := 6, dtstart := dt 2024 1 1 9, interval := 45, byminute := some [0, 30] } with
+            | .ok r => (iterDT r 4).1 | .error _ => []).map (fun (t : DT) => (t.hh, t.mm, t.ss))) =
+    [(9, 0, 0), (9, 0, 45), (9, 30, 0), (9, 30, 45)] := by decide +kernel
+-- a SecondlyBSArgs instance: every 7 s, only at second 21 (first met after 3 steps)
+example : SecondlyBSArgs { freq := 6, dtstart := dt 2024 1 1 9, interval := 7, bysecond := some [21] } :=
+  ⟨rfl, by decide, by decide, Or.inl rfl, rfl, by intro x hx; simp at hx, Or.inl rfl, Or.inl rfl, ⟨[21], rfl⟩,
+   List.any_eq_true.mpr ⟨3, List.mem_range.mpr (by omega), by decide⟩⟩
 -- a WeeknoMArgs instance: the Mondays of weeks 10 and 20, scanned month by month
 example : WeeknoMArgs { freq := 1, dtstart := dt 2024 1 1 9, byweekno := some [10, 20], byweekday := some [(0, 0)] } :=
   ⟨rfl, by decide, by decide, by decide, by intro x hx; simp at hx, rfl, by decide,
